@@ -110,6 +110,9 @@ type Conc struct {
 	Writer   []WOp   `json:"writer,omitempty"`
 	Readers  [][]ROp `json:"readers"`
 	Flushes  []FOp   `json:"flushes,omitempty"`
+	// LockParks: ordinals (counted over all client goroutines) of the write cache's lock acquisitions at which the
+	// acquiring goroutine parks first, holding nothing (build-tag hook storage.VerifLockYield)
+	LockParks []int `json:"lock_parks,omitempty"`
 }
 
 // Plan is a whole run.
@@ -384,6 +387,7 @@ func drawConc(d drawer, p *Plan, tier string) {
 	c.Flushes = list(d, "flushes", 1, 0, 3, func(d drawer) FOp {
 		return FOp{Sync: d.n(0, 4, "sync") == 4, Err: d.n(0, 5, "ferr") == 5}
 	})
+	c.LockParks = list(d, "lockparks", 1, 0, 4, func(d drawer) int { return d.n(1, 40, "lockpark") })
 	p.Tape = list(d, "tape", 6, 0, 10, func(d drawer) uint32 { return uint32(d.n(0, 7, "tape")) })
 }
 
